@@ -9,9 +9,9 @@ from torchphysics.problem import samplers as S
 from . import build, geo, refgeo as rg, specs
 
 NS = [1, 1, 2, 3, 5, 8, 10, 11, 12, 17, 37, 64, 100]
-DOM_PATHS = ["dom-random-n", "dom-random-n", "dom-grid-n", "dom-random-d", "dom-grid-d"]
-SAMPLER_PATHS = ["S-random-n", "S-random-n", "S-grid-n", "S-random-d", "S-grid-d",
-                 "S-random-n-filter", "S-grid-n-filter", "S-random-d-filter", "S-grid-d-filter",
+DOM_PATHS = ["dom-random-n", "dom-grid-n", "dom-grid-n", "dom-random-d", "dom-grid-d"]
+SAMPLER_PATHS = ["S-random-n", "S-grid-n", "S-grid-n", "S-random-d", "S-grid-d",
+                 "S-random-n-filter", "S-random-n-filter", "S-grid-n-filter", "S-random-d-filter", "S-grid-d-filter",
                  "static-random", "static-grid", "adaptive-threshold", "adaptive-random"]
 INTERIOR_ONLY = ["gaussian", "lhs"]
 
